@@ -191,6 +191,32 @@ def recurrent_kwargs_case():
     return None
 
 
+def neuron_clear_case(cls):
+    """every shipped neuron class: after some driven steps, clear() leaves voltage, refractory counter and spike flag (and,
+    with keep_adaptations=False, the adaptations) exactly as a freshly built neuron has them"""
+    from . import c03
+
+    torch.manual_seed(3)
+    n = c03.mk(cls, 1.0, 2.0)
+    n.eval()
+    for _ in range(7):
+        n(torch.rand(2, 3) * 60.0 - 10.0)
+    for kw in ({}, {"keep_adaptations": False}):
+        try:
+            n.clear(**kw)
+        except Exception as e:  # noqa: BLE001
+            return {"what": "C17/neuron/clear_exception", "input": dict(cls=cls, kwargs=kw), "expected": "ok", "actual": f"{type(e).__name__}: {e}"}
+        f = c03.mk(cls, 1.0, 2.0)
+        bad = [a for a in ("voltage", "refrac") if not torch.equal(getattr(n, a), getattr(f, a))]
+        if bool(n.spike.any()):
+            bad.append("spike")
+        if kw and hasattr(n, "adaptation") and not torch.equal(n.adaptation, f.adaptation):
+            bad.append("adaptation")
+        if bad:
+            return {"what": "C17/neuron/clear_is_not_the_fresh_state", "input": dict(cls=cls, kwargs=kw), "expected": "state of a freshly built neuron", "actual": bad}
+    return None
+
+
 def sweep(tier="quick", seed=0, unsupported=()):
     failures, cases = [], 0
 
@@ -211,6 +237,11 @@ def sweep(tier="quick", seed=0, unsupported=()):
         add(recurrent_case(k))
     cases += 1
     add(recurrent_kwargs_case())
+    for cls in ("LIF", "ALIF", "GLIF1", "GLIF2", "QIF", "Izhikevich", "EIF", "AdEx"):
+        cases += 1
+        f = neuron_clear_case(cls)
+        if f is not None and not any(x["what"] == f["what"] and x["input"].get("cls") == cls for x in failures):
+            failures.append(f)
     for rt in (0.0, 1.0, 3.0):
         cases += 1
         f = recurrent_spike_paths(rt)
@@ -224,6 +255,10 @@ def replay(contract, label, model, note=""):
     # never the recorded finding D22 (refrac_t = 0)
     fs = [f for f in r["failures"] if not (f["what"].startswith("C17/recurrent/lateral_input") and f.get("input", {}).get("refrac_t") == 0)]
     cls = contract.split(".")[0]
+    if contract.endswith(".clear"):
+        hit = [f for f in fs if f["what"].startswith("C17/neuron/") and f["input"].get("cls") == cls]
+        if hit:
+            return {"reproduced": True, "failure": hit[0], "concrete": hit[0]["input"]}
     if cls in ("LIF", "GLIF1", "QIF", "EIF", "ALIF", "GLIF2", "Izhikevich", "AdEx") and not any("recurrent" in f["what"] or "neuron" in str(f.get("actual")) for f in fs):
         # a neuron step contract shared from C03: its own oracle drives the real class
         from . import c03
